@@ -650,7 +650,7 @@ class Gen:
         if self.scalars("log") or self.arrays("log"):
             opts.append((3, "var"))
         if depth > 0:
-            opts += [(3, "and"), (3, "or"), (2, "not"), (1, "eqv")]
+            opts += [(3, "and"), (3, "or"), (2, "not"), (3, "eqv")]
         kind = self.weighted(opts)
         if kind == "cmp_r":
             opr = self.pick(["<", "<=", ">", ">=", "==", "/="])
